@@ -72,6 +72,53 @@ def _key_guess(s, ctx):
     s.rel.get_key_signature_guess()
 
 
+# ---- legal operations with unusual arguments (round 7): the values are derived from the live content, so that they
+# hit the relations a fixed small argument never does (a pad to exactly the current duration, a cut-off equal to an
+# existing length, a split whose pieces are joined again, a second and third stretch factor, a wrap by several octaves)
+
+def _cur_dur(s):
+    return int(lib.view_rel(s)[1])
+
+
+def _lengths(s):
+    pn = lib.pair_notes(lib.view_abs(s)[0])[0]
+    return sorted(n[3] - n[2] for n in pn) or [1]
+
+
+def _cutoff_existing(s, ctx):
+    L = _lengths(s)[0]                      # the shortest existing length: notes of exactly L stay, longer ones become L
+    s.cutoff(L, L)
+
+
+def _cutoff_longest(s, ctx):
+    L = _lengths(s)[-1]
+    if L > 1:
+        s.cutoff(L - 1, max(1, L // 2))     # only the longest note(s) are shortened
+
+
+def _split_rejoin(s, ctx):
+    # cut in the middle of the longest note and join the pieces again: a note crossing the cut becomes two abutting notes
+    pn = lib.pair_notes(lib.view_abs(s)[0])[0]
+    if not pn:
+        return
+    n = max(pn, key=lambda x: (x[3] - x[2], x))
+    cut = n[2] + (n[3] - n[2]) // 2         # inside the longest note
+    if cut <= 0:
+        return
+    parts = s.split([cut])
+    head = parts[0]
+    head.concatenate(parts[1:])
+    s.overwrite_relative_messages([m.copy() for m in head.messages_rel()])
+
+
+def _split_discard(s, ctx):
+    s.split([7, 13, 7])                     # results discarded: the source must not change
+
+
+def _overwrite_abs_self(s, ctx):
+    s.overwrite_absolute_messages([m.copy() for m in list(s.messages_abs())])
+
+
 # name -> fn(sequence, ctx); every operation is legal on any well-formed sequence and keeps it well-formed
 HIST_OPS = {
     "q_duration_relation": lambda s, c: s.get_sequence_duration_relation(),
@@ -104,8 +151,26 @@ HIST_OPS = {
     "iter_abs_first": lambda s, c: next(s.messages_abs(), None),
     "to_midi_track": lambda s, c: s.to_midi_track(),
     "equals_self_ignoring_signatures": lambda s, c: s.equals(s, ignore_time_signature=True, ignore_key_signature=True),
+    # round 7: unusual legal arguments, derived from the live content
+    "pad_exact": lambda s, c: s.pad(_cur_dur(s)),
+    "scale3": lambda s, c: s.scale(3, quantise_afterwards=False),
+    "scale5": lambda s, c: s.scale(5, quantise_afterwards=False),
+    "cutoff_existing": _cutoff_existing,
+    "cutoff_longest": _cutoff_longest,
+    "quantise_unit": lambda s, c: s.quantise([1]),
+    "quantise_5_7": lambda s, c: s.quantise([5, 7]),
+    "transpose_wrap": lambda s, c: s.transpose(50),
+    "transpose_octave_down": lambda s, c: s.transpose(-12),
+    "set_channel_5": lambda s, c: s.set_channel(5),
+    "split_discard": _split_discard,
+    "split_rejoin": _split_rejoin,
+    "overwrite_abs_self": _overwrite_abs_self,
 }
 HIST_NAMES = list(HIST_OPS)
+# thorough tier: every history of three operations over the content-changing part of the alphabet
+MUTATORS3 = ["scale3", "cutoff_existing", "split_rejoin", "transpose_wrap", "concat_alias", "merge_self", "pad_exact",
+             "quantise_5_7", "add_note", "edit_wait", "read_abs", "read_rel"]
+TIER = "quick"        # set by core.run_check before the units are enumerated (workers are forked afterwards)
 
 
 def histories(depth, names=None):
@@ -197,6 +262,8 @@ def hist_of_unit(unit, depth=2):
     out = [[h0]]
     if depth >= 2:
         out += [[h0, h1] for h1 in HIST_NAMES]
+    if TIER == "thorough" and h0 in MUTATORS3:
+        out += [[h0, h1, h2] for h1 in MUTATORS3 for h2 in MUTATORS3]
     return out
 
 
